@@ -7,9 +7,11 @@
   (return `none` for commands you do not own), import it here and add it to `handlers`.
 -/
 import Driver.CoreCmd
+import Driver.TensorCmd
 
 def handlers : List (String → List String → Option String) :=
   [ DV.CoreCmd.handle
+  , DV.TensorCmd.handle
   ]
 
 def handle (line : String) : String :=
